@@ -467,6 +467,7 @@ class DFA(fa.FA):
             If this DFA is missing transitions on certain symbols.
         """
 
+        self._validate_reserved_names()
         self._validate_transition_start_states()
         for start_state, paths in self.transitions.items():
             self._validate_transitions(start_state, paths)
